@@ -79,6 +79,7 @@ class Exec(HeapMixin, ExprMixin, CallMixin, StmtMixin):
         self.qguards = []
         self.qvars = []
         self.dec_ids = set()
+        self.final_classes = set(getattr(reg, 'final_classes', ()))   # classes assumed not subclassed by users
         self.laws = []               # enumeration laws of this path (for the `origin` proof device)
         self.class_facts = False     # emit `class_of(x) <: declared class` typing facts (only needed for isinstance)
         self._fact_ids = set()
@@ -678,9 +679,14 @@ class Exec(HeapMixin, ExprMixin, CallMixin, StmtMixin):
     def havoc_loop(self, st, spec, entry_state):
         from .stmts import assigned_names
         fr = self.frame
+        ltypes = self.cur_local_types()
         for n in sorted(assigned_names(st.body)):
             if n in fr.locals:
-                fr.locals[n] = self.fresh_like(fr.locals[n], n)
+                if n in ltypes and not isinstance(ty.parse(ltypes[n]), (ty.TList, ty.TDict)):
+                    self.ctx.n += 1
+                    fr.locals[n] = self.sym_value(f'{n}!{self.ctx.n}', ltypes[n])
+                else:
+                    fr.locals[n] = self.fresh_like(fr.locals[n], n)
         if st.__class__.__name__ == 'For':
             for n in sorted(assigned_names([ast.Expr(value=st.target)])):
                 pass
@@ -709,6 +715,12 @@ class Exec(HeapMixin, ExprMixin, CallMixin, StmtMixin):
             vt = ty.parse(c.params['*' + va.arg])
             if isinstance(vt, ty.TList):
                 env[va.arg] = self.new_list(vt, env[va.arg].items)
+        for pn, pt in c.params.items():
+            v = env.get(pn)
+            if isinstance(v, VRef) and v.typ == ty.ANY:
+                t = ty.parse(pt)
+                if isinstance(t, (ty.TDict, ty.TList, ty.TRef)):
+                    env[pn] = VRef(v.term, t, v.st)
         fr = self.frame
         k = fr.call_ord if fr is not None else 0
         callee = fi.qualname
@@ -807,6 +819,7 @@ class Exec(HeapMixin, ExprMixin, CallMixin, StmtMixin):
         if h is None:
             raise Unsupported(f'external call {name} has no assumed contract')
         self.extlog.append((name, selfv, args))
+        self._star_arg = star
         return h(self, selfv, args, kwargs)
 
 
@@ -834,6 +847,11 @@ def _h_order_of(eng, d, k):
 def _h_key_at(eng, d, i):
     n, key_at, pos_of = eng.dict_enum(d)
     return eng.from_terms([key_at(eng.arith_term(i))], d.typ.k, d.st)
+
+
+def _h_pos_in(eng, d, k):
+    n, key_at, pos_of = eng.dict_enum(d)
+    return VInt(pos_of(eng.key_term(d, k)))
 
 
 def _h_is_fresh(eng, x, old):
@@ -915,6 +933,39 @@ def _h_is_list(eng, x):
     return VBool(eng.isinstance_term(x, VFunc('builtin', name='list')))
 
 
+def _h_is_str_value(eng, x):
+    return VBool(eng.type_of_value(x).term == eng.cls_id('str')) if not isinstance(x, VStr) else VBool(True)
+
+
+def _h_iterable(eng, x):
+    return VBool(z3.Function('iterable', I, B)(x.term))
+
+
+def _h_items_of(eng, x):
+    r = VRef(z3.Function('items_of', I, I)(x.term), ty.parse('list[any]'), x.st)
+    # the items of a pre-existing collection are a pre-existing sequence (heap typing of the iterator model)
+    a0 = eng.ctx.base.get('alloc')
+    if a0 is None:
+        a0 = eng.arr('alloc')
+    eng.fact(z3.And(r.term > 0, r.term < a0))
+    return r
+
+
+def _h_rec_has(eng, d, k):
+    return VBool(z3.Function('rec_has', I, I, B)(d.term, k.term))
+
+
+def _h_rec_get(eng, d, k):
+    return VRef(z3.Function('rec_get', I, I, I)(d.term, k.term), ty.ANY)
+
+
+def _agg(name):
+    def h(eng, lst):
+        f = z3.Function('agg_' + name, I, eng.ctx.num)
+        return VNum(f(lst.term))
+    return h
+
+
 def _h_typeof(eng, x):
     return eng.type_of_value(x)
 
@@ -927,8 +978,10 @@ def _h_is_none(eng, x):
     return VBool(False)
 
 
-SPEC_HELPERS = dict(implies=_h_implies, iff=_h_iff, index_of=_h_index_of, order_of=_h_order_of, key_at=_h_key_at,
+SPEC_HELPERS = dict(pos_in=_h_pos_in, implies=_h_implies, iff=_h_iff, index_of=_h_index_of, order_of=_h_order_of, key_at=_h_key_at,
                     is_fresh=_h_is_fresh, same_elems=_h_same_elems, same_dict=_h_same_dict, typeof=_h_typeof, same=_h_same,
                     same_obj=_h_same, now=_h_now, was=_h_was, origin=_h_origin, by_lemma=_h_by_lemma, as_list=_h_as_list, is_ndarray=_h_is_ndarray,
-                    is_list=_h_is_list,
+                    is_list=_h_is_list, is_str_value=_h_is_str_value, iterable=_h_iterable, items_of=_h_items_of,
+                    rec_has=_h_rec_has, rec_get=_h_rec_get, agg_min=_agg('min'), agg_max=_agg('max'),
+                    agg_mean=_agg('mean'), agg_sum=_agg('sum'), agg_variance=_agg('variance'),
                     is_none=_h_is_none)
